@@ -19,7 +19,7 @@ func adversarial(c *vh.Ctx) {
 		}
 		r := c.Rand("c01-adversarial", i)
 		prof := scen.Profile{
-			Steps: 40 + r.Intn(40), Cluster: r.Intn(4) == 0, Hosted: r.Intn(3) == 0, Delegated: []float64{0, 0, 0.3, 0.6}[r.Intn(4)], MaxRevisions: 3,
+			Steps: 40 + r.Intn(40), Cluster: r.Intn(4) == 0, Hosted: r.Intn(3) == 0, Delegated: []float64{0, 0, 0.3, 0.6}[r.Intn(4)], MaxRevisions: 3, ForgeControl: true,
 			Weights: scen.WeightsWith(map[string]int{"adv-create": 8, "adv-reown": 8, "adv-relabel": 6, "adv-recreate": 4, "user-next-revision": 5, "restart": 0}),
 		}
 		mon := monitors.NewC01()
